@@ -22,13 +22,17 @@ from genlib import snake
 
 DIMS = [
     ("normalization", ["none", "rust"]),
-    ("response_derives", ["Serialize", "Serialize,Debug,Clone,PartialEq"]),
+    ("response_derives", ["Serialize", "Serialize,Debug,Clone,PartialEq", "Debug, Clone ,Serialize"]),
     ("variables_derives", ["Deserialize", "Deserialize, Debug ,Clone,PartialEq"]),
     ("visibility", ["", "pub", "pub(crate)"]),
     ("custom_scalars_module", [None, "crate::scalars"]),
     ("serde_path", ["::serde", "graphql_client::_private::serde"]),
     ("extern_enums", [[], ["Role"]]),
 ]
+
+# The options that are NOT wire-neutral are held fixed while the neutral ones vary; the property holds for every such
+# setting, so the whole comparison is run under each of these.
+BASES = [{}, {"skip_none": True, "other_variant": True, "deprecation": "allow"}]
 
 EXTERN_ROLE = '''
 #[derive(Debug, Clone, PartialEq)]
@@ -120,9 +124,11 @@ def run(tier):
     ops = operations(tier)
     sets = option_sets(tier)
     mods = []
+    bases = BASES if tier == "quick" else BASES + [{"skip_none": True}, {"other_variant": True}]
     for oi, (desc, doc) in enumerate(ops):
-        for s in sets:
-            mods.append({"oi": oi, "desc": desc, "doc": doc, "set": s, "opts": opts_of(s)})
+        for bi, base in enumerate(bases):
+            for s in sets:
+                mods.append({"oi": oi, "desc": desc, "doc": doc, "set": s, "base": bi, "opts": dict(opts_of(s), **base)})
     resps = generate([gen_request(sdl, gql.render_doc(m["doc"]), m["opts"]) for m in mods])
     farm = Farm("c09")
     for m, r in zip(mods, resps):
@@ -181,28 +187,28 @@ def run(tier):
             obs = "ok:" + canon_out(r["out"])
         else:
             obs = "rejected"
-        table[(m["oi"], kind, i, m["set"])] = obs
+        table[(m["oi"], kind, i, m["set"], m["base"])] = obs
     default = tuple(0 for _ in DIMS)
     distinct = set()
     outcomes = {"same": 0, "different": 0}
     per = {}
-    for (oi, kind, i, s), obs in table.items():
+    for (oi, kind, i, s, bi), obs in table.items():
         if s == default:
             continue
-        ref = table.get((oi, kind, i, default))
+        ref = table.get((oi, kind, i, default, bi))
         if ref is None:
             continue
-        distinct.add((oi, s))
+        distinct.add((oi, s, bi))
         if obs == ref:
             outcomes["same"] += 1
             continue
         outcomes["different"] += 1
         vs, av, _ = vectors[oi]
         vec = vs[i] if kind == "resp" else ("assignment", av[i])
-        key = (oi, s, kind)
+        key = (oi, s, kind, bi)
         per[key] = per.get(key, 0) + 1
         if per[key] <= 2:
-            m = next(x for x in mods if x["oi"] == oi and x["set"] == s)
+            m = next(x for x in mods if x["oi"] == oi and x["set"] == s and x["base"] == bi)
             rep.violation("wire_format_depends_on_option", dict(m["label"], entry=kind, vector=vec),
                           {"under_default_options": ref[:400], "under_these_options": obs[:400]})
     cov = {
@@ -210,8 +216,9 @@ def run(tier):
         "rule": "modules = %d operations x option sets (%s of normalization x response derives x variables derives x visibility "
                 "x custom-scalars module x serde path x extern enums); vectors per operation = conforming payloads (deviation "
                 "bound 2), every single-point corruption of the default payload, variables assignments (deviation bound 2, capped "
-                "at 1500); each observation is compared with the same vector under the default option set. distinct = (operation, "
-                "non-default option set)" % (len(ops), "the full product" if tier == "thorough" else "default + all single and pairwise deviations"),
+                "at 1500); each observation is compared with the same vector under the default option set; the whole comparison is "
+                "repeated under each fixed setting of the non-neutral options (default; skip-none + other-variant + deprecated=allow; "
+                "thorough also each alone). distinct = (operation, non-default option set, base setting)" % (len(ops), "the full product" if tier == "thorough" else "default + all single and pairwise deviations"),
         "operations": len(ops), "option_sets": len(sets), "modules": len(mods), "distinct_outcomes": outcomes,
         "vectors_per_operation": {ops[oi][0]: {"response_vectors": len(v[0]), "assignments": len(v[1])} for oi, v in vectors.items()},
         "exhaustive": tier == "thorough",
